@@ -60,7 +60,8 @@ func (hs *clientHandshakeStateTLS13) handshake() error {
 	}
 
 	// Consistency check on the presence of a keyShare and its parameters.
-	if hs.keyShareKeys == nil || hs.keyShareKeys.ecdhe == nil || len(hs.hello.keyShares) == 0 {
+	// [uTLS] a hello whose only generated key share is a hybrid one holds no classical key
+	if hs.keyShareKeys == nil || (hs.keyShareKeys.ecdhe == nil && hs.keyShareKeys.mlkemEcdhe == nil) || len(hs.hello.keyShares) == 0 {
 		return c.sendAlert(alertInternalError)
 	}
 
@@ -598,26 +599,27 @@ func (hs *clientHandshakeStateTLS13) establishHandshakeKeys() error {
 		}
 		ecdhePeerData = hs.serverHello.serverShare.data[:x25519PublicKeySize]
 	}
-	sharedKey, err := getSharedKey(ecdhePeerData, hs.keyShareKeys.ecdhe)
+	// the private key generated for the share the server selected (a uTLS hello may carry
+	// several classical shares, and its hybrid shares have their own X25519 key)
+	ecdheKey := hs.keyShareKeys.ecdheKeyFor(hs.serverHello.serverShare.group)
+	if ecdheKey == nil {
+		return c.sendAlert(alertInternalError)
+	}
+	sharedKey, err := getSharedKey(ecdhePeerData, ecdheKey)
 	// [uTLS] SECTION END
 	if err != nil {
 		c.sendAlert(alertIllegalParameter)
 		return errors.New("tls: invalid server key share")
 	}
 	if hs.serverHello.serverShare.group == X25519MLKEM768 {
-		if hs.keyShareKeys.mlkem == nil {
-			return c.sendAlert(alertInternalError)
-		}
 		// [uTLS] SECTION BEGIN
-		if hs.uconn != nil && hs.uconn.clientHelloBuildStatus == BuildByUtls {
-			if sharedKey, err = getSharedKey(ecdhePeerData, hs.keyShareKeys.mlkemEcdhe); err != nil {
-				c.sendAlert(alertIllegalParameter)
-				return errors.New("tls: invalid server key share")
-			}
+		mlkemKey := hs.keyShareKeys.mlkemKeyFor(X25519MLKEM768)
+		if mlkemKey == nil {
+			return c.sendAlert(alertInternalError)
 		}
 		// [uTLS] SECTION END
 		ciphertext := hs.serverHello.serverShare.data[:mlkem.CiphertextSize768]
-		mlkemShared, err := hs.keyShareKeys.mlkem.Decapsulate(ciphertext)
+		mlkemShared, err := mlkemKey.Decapsulate(ciphertext)
 		if err != nil {
 			c.sendAlert(alertIllegalParameter)
 			return errors.New("tls: invalid X25519MLKEM768 server key share")
@@ -626,17 +628,12 @@ func (hs *clientHandshakeStateTLS13) establishHandshakeKeys() error {
 	}
 	// [uTLS] SECTION BEGIN
 	if hs.serverHello.serverShare.group == X25519Kyber768Draft00 {
-		if hs.keyShareKeys.mlkem == nil {
+		mlkemKey := hs.keyShareKeys.mlkemKeyFor(X25519Kyber768Draft00)
+		if mlkemKey == nil {
 			return c.sendAlert(alertInternalError)
 		}
-		if hs.uconn != nil && hs.uconn.clientHelloBuildStatus == BuildByUtls {
-			if sharedKey, err = getSharedKey(ecdhePeerData, hs.keyShareKeys.mlkemEcdhe); err != nil {
-				c.sendAlert(alertIllegalParameter)
-				return errors.New("tls: invalid server key share")
-			}
-		}
 		ciphertext := hs.serverHello.serverShare.data[x25519PublicKeySize:]
-		kyberShared, err := kyberDecapsulate(hs.keyShareKeys.mlkem, ciphertext)
+		kyberShared, err := kyberDecapsulate(mlkemKey, ciphertext)
 		if err != nil {
 			c.sendAlert(alertIllegalParameter)
 			return errors.New("tls: invalid X25519Kyber768Draft00 server key share")
